@@ -70,10 +70,13 @@ def LSess.noteCheck (x : LSess) (woke : Bool) (s' : Sess) : LSess :=
            remChecks := if woke then s'.now :: x.remChecks else x.remChecks,
            tripFrom := if !x.s.closed && s'.closed && s'.closedByMon then x.lastCheck else x.tripFrom }
 
+/-- the bytes that waited in the socket are handed to `data_received`, oldest first -/
+def handover (s : Sess) (ks : List RecvKind) : Sess := ks.foldl (fun s k => s.dataReceived k) s
+
 /-- the blocking callback returns: waiting bytes first, then the late timers (local, then remote) -/
 def LSess.resume (x : LSess) : LSess :=
   if x.held then
-    let s1 := x.pending.foldl (fun s k => s.dataReceived k) x.s
+    let s1 := handover x.s x.pending
     let x1 := { x with s := s1, held := false, pending := [] }
     x1.noteCheck (remDue s1 0) (fireRemote (fireLocal s1))
   else x
